@@ -1,6 +1,7 @@
 package main
 
 import (
+	"os"
 	"sort"
 	"fmt"
 	"go/constant"
@@ -641,6 +642,34 @@ func (e *Env) evalCall(x *Expr) SVal {
 		k := e.eval(x.Args[0])
 		comp := e.rangeGhost(x, ".visited", 1)
 		return SVal{S: e.inState(func() string { return app("select", t.get(comp), k.S) }), Sort: "Bool"}
+	case "isfunc": // isfunc(x, Type.Method | Func): x is statically that function, or the method value bound to a receiver
+		v := e.eval(x.Args[0])
+		want := exprPath(x.Args[1])
+		if v.FnV == nil || v.FnV.Fn == nil || want == "" {
+			if os.Getenv("GOVC_DEBUG_ISFUNC") != "" {
+				fmt.Fprintf(os.Stderr, "isfunc: no static function value (FnV %v) want %q\n", v.FnV != nil, want)
+			}
+			return SVal{S: "false", Sort: "Bool"}
+		}
+		k := fnKey(v.FnV.Fn)
+		if i := strings.LastIndex(k, "/"); i >= 0 {
+			k = k[i+1:]
+		}
+		if i := strings.Index(k, "."); i >= 0 {
+			k = k[i+1:]
+		}
+		bound := strings.HasSuffix(k, "$bound") // the wrapper of a method value: named after the method only
+		k = strings.TrimSuffix(k, "$bound")
+		if bound && strings.HasSuffix(want, "."+k) {
+			k = want
+		}
+		if os.Getenv("GOVC_DEBUG_ISFUNC") != "" {
+			fmt.Fprintf(os.Stderr, "isfunc: %q want %q\n", k, want)
+		}
+		if k == want {
+			return SVal{S: "true", Sort: "Bool"}
+		}
+		return SVal{S: "false", Sort: "Bool"}
 	case "visitedcount": // visitedcount([n]): number of keys produced so far by the (n-th) map range loop of this function
 		comp := e.rangeGhost(x, ".count", 0)
 		return SVal{S: e.inState(func() string { return t.get(comp) }), Sort: "Int"}
@@ -1034,4 +1063,17 @@ func (e *Env) rangeGhost(x *Expr, suffix string, argPos int) string {
 		e.errf(x, "%s(): more than one map range in this function (give the ordinal)", x.Name)
 	}
 	return comps[0]
+}
+
+// exprPath: a.b.c for a selector chain of identifiers ("" otherwise).
+func exprPath(x *Expr) string {
+	switch x.Op {
+	case "id":
+		return x.Name
+	case "sel":
+		if p := exprPath(x.Args[0]); p != "" {
+			return p + "." + x.Name
+		}
+	}
+	return ""
 }
